@@ -266,6 +266,12 @@ def run(repo: Repo, tier: str) -> Report:
     celldep = sorted(a for a in _flatten_atoms(final.rhs.key()) if f"[{ix}]" in a and not a.startswith(f"{x}[{ix}]"))
     ob("R-LOOPINV", "gammastd", "the only cell-dependent input of the index is the observation x[ix]", not celldep,
        f"other cell-dependent terms: {celldep}", f"cell dependence of {norm_stmt(final.stmt)}")
+    # no neighbouring cell: every subscript inside the cell loop whose index mentions the loop variable addresses the current cell itself
+    # (a copy from / comparison with x[ix - 1], y[ix - 1] makes the index of a cell a function of its position in the series)
+    neigh = sorted({ast.unparse(n_) for n_ in ast.walk(loop) if isinstance(n_, ast.Subscript)
+                    and any(isinstance(m_, ast.Name) and m_.id == ix for m_ in ast.walk(n_.slice)) and ast.unparse(n_.slice) != ix})
+    ob("R-LOOPINV", "gammastd", "inside the cell loop arrays are addressed at the current cell only (no neighbouring observation or index enters a cell's index)",
+       not neigh, f"accesses at other positions: {neigh}", loop)
     from ..rules import r_truthy
     r_truthy(rep, repo, "PixelAlgorithms", "spi", ["nodata"], "0 is a legitimate nodata value (it is the one the test-suite uses); a truth test silently replaces or drops it")
     from ..rules import r_stateless
